@@ -1069,7 +1069,24 @@ def _collect_rule(ctx, pkg):
         if any(isinstance(n, (ast.Yield, ast.YieldFrom)) for n in ast.walk(g)):
             return _generator_as_expression(g)
         return g
-    fl = Flow(fn, UTIL, func_resolver=helper)
+    # (read with the plain module functions it was split into put back in place: a block extracted into a procedure that fills the
+    # dictionary it is handed is the same nested loop)
+    fnx = fn
+    try:
+        import copy
+        from ..normalize import expand_helpers
+        locs = {n.id for n in ast.walk(fn) if isinstance(n, ast.Name) and isinstance(n.ctx, ast.Store)} | set(ps)
+
+        def put_back(call):
+            if isinstance(call.func, ast.Name) and call.func.id not in locs:
+                g = pkg.functions.get((UTIL, call.func.id))
+                if g is not None and g is not fn and not any(isinstance(n, (ast.Yield, ast.YieldFrom)) or (isinstance(n, ast.Name) and n.id == fn.name) for n in ast.walk(g)):
+                    return g, None
+            return None
+        fnx = expand_helpers(copy.deepcopy(fn), put_back)
+    except Exception:
+        fnx = fn
+    fl = Flow(fnx, UTIL, func_resolver=helper)
     rets = [simp(f.value) for f in fl.facts if f.kind == "return" and f.value is not None]
     evidence, ok = [], False
     # by role: the dictionary whose .items() is returned
